@@ -37,6 +37,7 @@ REVERTS = [
     ('F37-legacy-header-type-bits', 'a77db8e', {'C17': ['S17-7:legacy-header-type-from-value']}),
     ('F38-legacy-header-tag-range', '8805874', {'C17': ['S17-7:legacy-writer-rejects-tag-ge-16']}),
     ('F39-packet-sum-double-header', 'a58094b', {'C05': ['S05-2:sum-type-header-once'], 'C17': ['S05-2:sum-type-header-once']}),
+    ('F40-critical-experimental-subpacket', '70b60a0', {'C15': ['S15-6:critical-unknown-covers-opaque-types']}),
     ('F23-boolean-subpackets', '1b5ba7a', {'C05': ['S05-8:lossless-bool'], 'C02': ['S05-8:lossless-bool']}),
 ]
 tests = [dict(name='revert:' + n, kind='revert-fix', commit=c, expect=e) for n, c, e in REVERTS]
